@@ -269,6 +269,8 @@ class Markdown:
         """
         self.htmlStash.reset()
         self.references.clear()
+        # A conversion which raised part way through may have left nesting states behind.
+        self.parser.state.clear()
 
         for extension in self.registeredExtensions:
             if hasattr(extension, 'reset'):
